@@ -114,6 +114,32 @@ Theorem C05_replay_refuted :
 Proof. exact replay_refuted. Qed.
 Print Assumptions C05_replay_refuted.
 
+(* squash / CI rewrite (git-ai squash-authorship, CI merge handler): every file the note names is a
+   file of the merge commit and every listed line exists in it.  The premise that
+   merge_attributions_favoring_first skips files missing from the final state is the translated fact
+   GenNotes.gn_merge_skips_absent, used by the proof; hypotheses 1 and 3 are about the attribution
+   tracker and the prompt map (monitored in-process on every generated case). *)
+Theorem C05_squash_note_ok : forall mf own tree changed target source prompts,
+  (forall p lc, tree p = Some lc ->
+     Forall (fun x => 1 <= la_start x /\ la_start x <= la_end x /\ la_end x <= lc) (mf p lc)) ->
+  (forall p lc, tree p = Some lc -> lc <= u32_max) ->
+  (forall p lc x, In x (mf p lc) -> la_author x <> human -> In (la_author x) prompts) ->
+  forall f, In f (squash_note mf own tree changed target source) -> fatt_ok tree prompts f = true.
+Proof. exact squash_note_ok. Qed.
+Print Assumptions C05_squash_note_ok.
+
+Theorem C05_merge_skips_absent : gn_merge_skips_absent = true.
+Proof. exact merge_skips_absent. Qed.
+Print Assumptions C05_merge_skips_absent.
+
+Theorem C05_squash_fallback_refuted :
+  exists f,
+    In f (to_authorship_log (merge_favoring_first false w_sq_mf w_sq_own [] w_sq_source
+                               (committed_files w_sq_tree [[97]; [120]])))
+    /\ fatt_ok w_sq_tree [w_s] f = false.
+Proof. exact squash_fallback_refuted. Qed.
+Print Assumptions C05_squash_fallback_refuted.
+
 (* ---------------------------------------------------------------- (3) the remap *)
 Theorem C05_remap_base : forall pre ws1 ws2 v post target,
   find_sub gn_remap_field (pre ++ gn_remap_field ++ ws1 ++ [58] ++ ws2 ++ [c_dq] ++ v ++ [c_dq] ++ post)
